@@ -141,6 +141,17 @@ int main(int argc, char **argv)
         if (W == 32 && !args.thorough() && v != V_SEQ)
             for (size_t L : {((size_t)1 << 24) + 1, ((size_t)1 << 24) + 9})
                 cases.push_back({v, L, 1, 2}); // align=2: differential against linear_hash_seq
+        // lengths next to the integer constants of the library source (and 8x: block counts), see lib/mine.py
+        if (W == 32)
+        {
+            std::set<size_t> ls;
+            for (u64 L : culist(args.kv, "lits"))
+                for (u64 m : {1ULL, 8ULL})
+                    for (long long d : {-1LL, 0LL, 1LL}) { long long x = (long long)(L * m) + d; if (x > (long long)Lmax && x <= 300000) ls.insert((size_t)x); }
+            for (size_t L : ls)
+                for (int kind : {1, 2, 3 + (int)L - 1})
+                    cases.push_back({v, L, kind, 0});
+        }
         // long inputs: block-loop bookkeeping far from the small cases (three bulk contents + a marker in the last block)
         if (W == 32)
             for (size_t L : {(size_t)255, (size_t)256, (size_t)257, (size_t)511, (size_t)1000, (size_t)1023, (size_t)1024, (size_t)1025, (size_t)4099, (size_t)65537})
